@@ -763,12 +763,15 @@ class CallMixin(ExprMixin):
             st.heap[st.ghost][g] = old.heap[old.ghost][g]
         results: list[tuple[State, Any]] = []
         live_before = self.feasible(st)
-        # exceptional outcomes
+        # exceptional outcomes (entries are matched in order, like except clauses: an exception belongs to the FIRST entry whose
+        # class it is an instance of - the same rule as the exit check of the callee's own verification)
+        earlier: list = []
         for cname, clauses in c.raises.items():
             classes = [self.class_by_name(cname)]
             if c.env.get("raise_any") == cname or cname in ("BaseException", "Exception", "OSError"):
                 # "may raise any exception below cname": one path per representative class
-                classes = self.representatives(classes[0])
+                classes = [k for k in self.representatives(classes[0]) if not any(self.is_subclass(k, e) for e in earlier)]
+            earlier.append(self.class_by_name(cname))
             if classes:
                 s2 = st.clone()
                 exc = self.make_exc_any(s2, classes)
